@@ -15,6 +15,24 @@ def storeResultsValue : List (List UInt8 × Option Bool) := [
   ([78, 79, 84, 95, 83, 84, 79, 82, 69, 68], some false),
   ([83, 84, 79, 82, 69, 68], some true)
 ]
+def statTypes : List (List UInt8 × String) := [
+  ([97, 117, 116, 104, 95, 101, 110, 97, 98, 108, 101, 100, 95, 115, 97, 115, 108], "_parse_bool_string_is_yes"),
+  ([99, 97, 115, 95, 101, 110, 97, 98, 108, 101, 100], "_parse_bool_int"),
+  ([100, 101, 116, 97, 105, 108, 95, 101, 110, 97, 98, 108, 101, 100], "_parse_bool_int"),
+  ([103, 114, 111, 119, 116, 104, 95, 102, 97, 99, 116, 111, 114], "float"),
+  ([104, 97, 115, 104, 95, 105, 115, 95, 101, 120, 112, 97, 110, 100, 105, 110, 103], "_parse_bool_int"),
+  ([105, 110, 116, 101, 114], "bytes"),
+  ([109, 97, 120, 99, 111, 110, 110, 115, 95, 102, 97, 115, 116], "_parse_bool_int"),
+  ([114, 117, 115, 97, 103, 101, 95, 115, 121, 115, 116, 101, 109], "_parse_float"),
+  ([114, 117, 115, 97, 103, 101, 95, 117, 115, 101, 114], "_parse_float"),
+  ([115, 108, 97, 98, 95, 97, 117, 116, 111, 109, 111, 118, 101], "_parse_bool_int"),
+  ([115, 108, 97, 98, 95, 114, 101, 97, 115, 115, 105, 103, 110], "_parse_bool_int"),
+  ([115, 108, 97, 98, 95, 114, 101, 97, 115, 115, 105, 103, 110, 95, 114, 117, 110, 110, 105, 110, 103], "_parse_bool_int"),
+  ([115, 116, 97, 116, 95, 107, 101, 121, 95, 112, 114, 101, 102, 105, 120], "bytes"),
+  ([117, 109, 97, 115, 107], "_parse_hex"),
+  ([118, 101, 114, 115, 105, 111, 110], "bytes")
+]
+def statTypesAllBytesKeys : Bool := true
 def flagbytes : Nat := 0
 def flagpickle : Nat := 1
 def flaginteger : Nat := 2
